@@ -6,4 +6,5 @@ export CARGO_NET_OFFLINE=true
 python3 tools/extract.py
 (cd lean && lake build BPT bptdriver)
 (cd harness/rust && cargo build --offline)
+python3 harness/py/charness.py build
 echo "setup: ok"
